@@ -46,3 +46,22 @@ pub use regexp::*;
 pub use set::*;
 pub use string::*;
 pub use symbol::*;
+
+use crate::value::JsValue;
+
+/// Resolve an optional relative index argument (the `start`/`end` of `slice`, `fill`,
+/// `copyWithin`, ...) against `len`: a missing or `undefined` argument yields `default`,
+/// a negative one counts back from `len`, and the result is clamped to `0..=len`.
+pub(crate) fn relative_index(arg: Option<&JsValue>, len: usize, default: usize) -> usize {
+    let relative = match arg {
+        None | Some(JsValue::Undefined) => return default,
+        Some(v) => v.to_integer_or_infinity(),
+    };
+    // f64 arithmetic: ±Infinity clamps instead of overflowing
+    let len = len as f64;
+    if relative < 0.0 {
+        (len + relative).max(0.0) as usize
+    } else {
+        relative.min(len) as usize
+    }
+}
